@@ -1,6 +1,6 @@
 use std::collections::{HashMap, VecDeque};
 use std::env;
-use std::path::{Path, PathBuf};
+use std::path::{Component, Path, PathBuf};
 use std::str::FromStr;
 use std::sync::Arc;
 
@@ -42,8 +42,20 @@ impl FileRange {
 pub struct FilePath(pub PathBuf);
 
 impl FilePath {
+    /// Joins and normalises lexically, so that `b.td`, `./b.td` and `sub/../b.td` all name the
+    /// same file (and get the same file id).
     pub fn join(&self, path: impl AsRef<Path>) -> FilePath {
-        FilePath(self.0.join(path))
+        let mut joined = PathBuf::new();
+        for component in self.0.join(path).components() {
+            match component {
+                Component::CurDir => {}
+                Component::ParentDir => {
+                    joined.pop();
+                }
+                component => joined.push(component),
+            }
+        }
+        FilePath(joined)
     }
 
     pub fn parent(&self) -> Option<FilePath> {
